@@ -408,6 +408,8 @@ namespace T
    A0( EVERYTHING, G_ATOM2, ( p::everything ) ) \
    A0( ISTRING_AB, G_ATOM2, ( p::istring< 'a', 'b' > ) ) \
    A0( RAISE_MSG, G_EXC, ( raise_msg ) ) \
+   A0( DISCARD, G_ATOM2, ( p::discard ) ) \
+   A0( REQUIRE2, G_ATOM2, ( p::require< 2 > ) ) \
    A0( ONE_LF, G_POS, ( p::one< '\n' > ) ) \
    A0( ONE_CR, G_POS, ( p::one< '\r' > ) ) \
    A0( STRING_CRLF, G_POS, ( p::string< '\r', '\n' > ) ) \
